@@ -274,7 +274,7 @@ class Atoms:
         else:
             # no atom_type_elements or elements passed
             # this should be the `Atoms()` case; if not, it will fail the asserts below
-            self.atom_types = np.array([], ndmin=1)
+            self.atom_types = np.array([], dtype=int, ndmin=1)
             self.atom_type_elements = []
 
         # automatically determine masses from elements if masses are not passed
